@@ -4,16 +4,16 @@
    whitespace + a spelling of the token it yields; no token is ILLEGAL; the accept action was taken
    on the end-of-input token with every other token shifted, and those tokens form a sentence of the
    grammar recovered from the LR tables of the current parser.y.go; the parsed program has exactly
-   the declarations of the statement list.  A character outside the alphabet in front of which a
-   call of Scan starts makes the text rejected.
+   the declarations of the statement list.  Inserting a character outside the alphabet at a token
+   boundary of any text makes the text rejected.
    Proofs: proofs/ScanCover.v, LRSound.v (+ LRSoundInst.v by computation), ParseSound.v,
-   ExpandProofs.v, IllegalReject.v. *)
+   ExpandProofs.v, IllegalReject.v, ScanLocal.v, ActionsTyped.v. *)
 Require Import Grits.Base Grits.ModeDefs Grits.Modes Grits.STypes Grits.Forms Grits.Tokens Grits.Scan
                Grits.gen.LRTables Grits.gen.LRCert Grits.LR Grits.Actions Grits.Expand
                Grits.spec.ScanSpec Grits.spec.Grammar
                Grits.proofs.ScanProofs Grits.proofs.ScanCover Grits.proofs.LRCheck Grits.proofs.LRProof
                Grits.proofs.LRCertInst Grits.proofs.LRSound Grits.proofs.LRSoundInst Grits.proofs.ParseSound
-               Grits.proofs.ExpandProofs Grits.proofs.IllegalReject Grits.proofs.ActionsTyped.
+               Grits.proofs.ExpandProofs Grits.proofs.IllegalReject Grits.proofs.ScanLocal Grits.proofs.ActionsTyped.
 Local Open Scope Z_scope.
 
 (* the instrumented scanner produces the tokens of the model's scanner *)
@@ -55,6 +55,14 @@ Theorem C12_illegal_at_boundary_rejected : forall s ws c b,
   forall l, parse_statements s <> POk l.
 Proof. exact illegal_at_boundary_rejected. Qed.
 
+(* the quantifier of the property: P = a ^^ b with b a token boundary of P (a call of Scan starts at b
+   after real tokens and comments closed inside the text); inserting a character outside the alphabet
+   at that boundary gives a text that is rejected.  (One call of Scan depends on the text behind the
+   bytes it consumes only through the next byte: proofs/ScanLocal.v.) *)
+Theorem C12_insert_illegal_rejected : forall P a b c,
+  cboundary P a b -> illegal_char c = true -> forall l, parse_statements (a ^^ String c b) <> POk l.
+Proof. exact insert_illegal_rejected. Qed.
+
 Theorem C12_outside_alphabet_illegal : forall c,
   In (code c) [64; 35; 36; 126; 33; 63; 34; 94; 96; 0; 127]%nat \/ (128 <= code c)%nat -> illegal_char c = true.
 Proof. exact outside_alphabet_illegal. Qed.
@@ -78,4 +86,5 @@ Print Assumptions C12_accept_consumes_all.
 Print Assumptions C12_no_illegal_accept.
 Print Assumptions C12_decls_preserved.
 Print Assumptions C12_illegal_at_boundary_rejected.
+Print Assumptions C12_insert_illegal_rejected.
 Print Assumptions C12_outside_alphabet_illegal.
